@@ -402,4 +402,17 @@ CHECKS = {
         assumptions=["schedules are sampled; the race detector reports races on executed paths only"],
         technique="generated concurrent programs under the Go race detector, schedule-independent oracle",
     ),
+    "C18": dict(
+        test="TestC18", level="exploration", shards=16, race=True,
+        tiers=dict(quick=dict(checks=3, timeout=900), thorough=dict(checks=120, timeout=3400)),
+        rule="rapid concurrent programs built with the race detector: 2-6 writer goroutines x 20-120 single-row writes "
+             "over two fixed buckets and one variable-length bucket (6 intervals each, so writers collide), 1-4 reader "
+             "goroutines running all-time queries throughout, background WAL writer with 1-4ms flush, 5-40ms checkpoint "
+             "and rotation every 1-3 checkpoints; every column of a row carries the same tag; oracle: no panic, no data "
+             "race, no query error, every row returned to any reader is a whole row of an issued write to that "
+             "bucket/interval, finally every variable-length record exactly once and every written fixed interval "
+             "present; non-trivial = programs in which a reader read the variable-length bucket while it was written",
+        assumptions=["schedules are sampled; the race detector reports races on executed paths only"],
+        technique="generated concurrent programs under the Go race detector, schedule-independent oracle",
+    ),
 }
